@@ -173,3 +173,66 @@ func VH_C10_ServerScript() {
 	cancel()
 	c.Close()
 }
+
+// VH_C10_ClientScript: the client handshake fed with a script of `steps`
+// events - a silence longer than the handshake timeout (the client re-sends
+// its SYN), a SYN proposing another window than the client's, an undecodable
+// packet, or the proper SYN echo. The statement: an attempt that cannot
+// proceed fails with an error on that side. So once the script contains a
+// packet the client must reject (foreign window, junk), NewClientConn returns
+// an error within a bounded time of receiving it - also when a timeout and a
+// re-sent SYN preceded it. (A client that only sees silence keeps trying;
+// that is waiting for a server, not a failure.)
+func VH_C10_ClientScript() {
+	steps := vParam("steps", 2)
+	const n = 7
+	good, _ := (&PacketSYN{N: n}).Serialize()
+	foreign, _ := (&PacketSYN{N: n + 1}).Serialize()
+	w := &vScript{pause: 2 * time.Second}
+	fatal, silences, echoed := false, 0, false
+	for i := 0; i < steps && !fatal && !echoed; i++ {
+		switch vIntRange("kind", 0, 3) {
+		case 0:
+			w.in = append(w.in, nil)
+			silences++
+		case 1:
+			w.in = append(w.in, foreign)
+			fatal = true
+		case 2:
+			w.in = append(w.in, []byte{0xff})
+			fatal = true
+		case 3:
+			w.in = append(w.in, good)
+			echoed = true
+		}
+	}
+	ctx, cancel := context.WithCancel(context.Background())
+	type res struct {
+		c   *GoBackNConn
+		err error
+	}
+	done := make(chan res, 1)
+	go func() {
+		c, err := NewClientConn(ctx, n, w.send, w.recv, WithTimeoutOptions(WithHandshakeTimeout(time.Second)))
+		done <- res{c, err}
+	}()
+	bound := time.Duration(silences)*4*time.Second + 10*time.Second
+	select {
+	case r := <-done:
+		vReach("client-script-returned")
+		if fatal {
+			vAssert(r.err != nil, "the client completed a handshake although it received a packet it must reject")
+		}
+		if echoed {
+			vAssert(r.err == nil && r.c != nil && r.c.cfg.n == n, "the client failed although the server echoed its SYN (after the timeouts of the script)")
+		}
+		if r.c != nil {
+			r.c.Close()
+		}
+	case <-time.After(bound):
+		vReach("client-script-waiting")
+		vAssert(!fatal, "the client received a packet it must reject and neither completed nor failed: NewClientConn does not return its error")
+		vAssert(!echoed, "the server echoed the client's SYN and the client still has not completed the handshake")
+	}
+	cancel()
+}
